@@ -18,7 +18,7 @@ def run(ctx):
     common.build("build/fuzz/fuzz_solread")
     res = common.Result()
     camp = fuzzrun.campaign(ctx, res, BIN, CORPUS, ctx.pick(100000, 1500000), 4000, TAG, nontrivial_key="past_options")
-    for k in ("ok", "err", "past_options", "vec_offered", "suf_offered", "binary"):
+    for k in ("ok", "err", "past_options", "vec_offered", "suf_offered", "binary", "suf_len_checked"):
         res.labels[k] = int(camp.get(k, 0))
     return common.finish(
         ctx, res, "exploration",
